@@ -7,8 +7,11 @@ P = dict(
               'compared with every CommandLineArguments getter and with what CommandLineTestRunner executes on a probe registry (console/file/separate-process seams captured); '
               'hostile argv (arbitrary bytes, truncations, mutations) in exact-size libc blocks under ASan/UBSan; '
               'the millisecond clock (the parser\'s only other input: default shuffle seed) is a pinned seam whose reading is part of every case; '
-              'applied -vv judged differentially against the same vector one verbosity level down',
-    rule='cases: argument vectors. Three finite sub-domains are enumerated completely (every documented option form alone and in every ordered pair; every truncation / dropped argument of every form plus a table of malformed TEST( / group.name / number shapes; '
+              'applied -vv judged differentially against the same vector one verbosity level down; '
+              'multiplicity of the scalar option -o enumerated (every sequence of 1..3 -o options x kind word x attached/separated x 6 contexts): getters must report one of the given kinds '
+              'and the runner must apply exactly the kind the getters report (files opened / teamcity messages / console, verbosity, package) also when different kinds are given',
+    rule='cases: argument vectors. Four finite sub-domains are enumerated completely (every documented option form alone and in every ordered pair; every truncation / dropped argument of every form plus a table of malformed TEST( / group.name / number shapes; '
+         'every sequence of 1..3 -o options over normal/eclipse/junit/teamcity in attached/separated form in 6 contexts; '
          'every clock-reading vector shape x the lattice of clock readings 2^k+d, m*2^32+d, 0, ULONG_MAX x constant/advancing clock); '
          'random sequences of documented options (attached/separated, identifier-like values with substring relations to the probe registry), filter-only vectors, arbitrary bytes 1..255, mutations of valid vectors. '
          'Non-trivial = a vector the reference reads as documented with >= 2 value-carrying options in mixed attached/separated form, or a vector outside the documented grammar that the parser rejects; distinct by the argv bytes',
@@ -16,14 +19,19 @@ P = dict(
     counter_floor=dict(
         quick={'configurations_compared': 40000, 'selection_runs': 30000, 'real_rejected': 20000, 'list_outputs_compared': 1000, 'separate_process_runs': 1000, 'output_kind_applied_junit': 500, 'output_kind_applied_teamcity': 500,
                'very_verbose_differential_checked': 2000, 'very_verbose_differential_checked_with_v_too': 400, 'verbose_output_checked_junit_composite': 100,
-               'unseeded_shuffle_vectors_clock_nonzero_multiple_of_2p32': 1000, 'unseeded_shuffle_vectors_clock_zero': 100, 'unseeded_shuffle_vectors_clock_low32_all_ones': 800},
+               'unseeded_shuffle_vectors_clock_nonzero_multiple_of_2p32': 1000, 'unseeded_shuffle_vectors_clock_zero': 100, 'unseeded_shuffle_vectors_clock_low32_all_ones': 800,
+               'output_kind_conflict_vectors': 3000, 'output_kind_applied_with_several_o_kinds': 3000},
         thorough={'configurations_compared': 300000, 'selection_runs': 200000, 'real_rejected': 100000, 'list_outputs_compared': 5000, 'separate_process_runs': 5000, 'output_kind_applied_junit': 3000, 'output_kind_applied_teamcity': 3000,
                   'very_verbose_differential_checked': 10000, 'very_verbose_differential_checked_with_v_too': 2000, 'verbose_output_checked_junit_composite': 500,
-                  'unseeded_shuffle_vectors_clock_nonzero_multiple_of_2p32': 3000, 'unseeded_shuffle_vectors_clock_zero': 300, 'unseeded_shuffle_vectors_clock_low32_all_ones': 2500},
+                  'unseeded_shuffle_vectors_clock_nonzero_multiple_of_2p32': 3000, 'unseeded_shuffle_vectors_clock_zero': 300, 'unseeded_shuffle_vectors_clock_low32_all_ones': 2500,
+                  'output_kind_conflict_vectors': 3000, 'output_kind_applied_with_several_o_kinds': 3000},
     ),
     assumptions=[
         'filter lists are compared as multisets (the help text does not document an order; filters are OR-ed per C02)',
-        'a scalar option (-r, -s, -o, -k) given several times with different values may yield any of the given values (the help text does not say which occurrence wins); which one won is counted',
+        'a scalar option (-r, -s, -o, -k) given several times with different values may yield any of the given values (the help text does not say which occurrence wins); which one won is counted (conflicting_scalar_*, output_kind_conflict_*)',
+        'NOT judged: which of several -o options naming different kinds decides. The usage line shows -o without the "..." that marks repeatable options, the help text ("-onormal - no output to files", "-ojunit - output to JUnit ... xml files") gives each kind a meaning but no precedence, README/ChangeLog/headers say nothing; '
+        '"-ojunit -onormal" writing JUnit files contradicts one help line, writing none contradicts the other. So "last one wins" (what the code does) is not demanded; a change that makes -onormal/-oeclipse a no-op after an earlier -ojunit/-oteamcity (seeded C12-r4-onormal-...) stays inside the accepted set (no per-kind floor is set on the several-kinds counters for the same reason: which kinds are reachable depends on the undocumented precedence) and only shows in the counters output_kind_conflict_parsed_<kind>_last_given_<kind> / output_kind_conflict_first_given_wins',
+        'with several different -o kinds the runner is held to the kind the getters report (the runner applies the parser\'s configuration): files opened / teamcity messages / verbosity / package are judged against that kind',
         'unknown options and values outside an option\'s documented domain (-r0, -s0, -t without a dot, ...) are not required to be rejected; when they are, usage/help must be printed and nothing may run',
         'the shuffle seed is compared only when every -s carries one (otherwise it comes from the clock: which value it becomes is not documented and only counted; that the documented vector is accepted whatever the clock reads is judged)',
         'the clock is replaced through the GetPlatformSpecificTimeInMillis seam for the whole case (constant, or advancing by 1 per reading): durations in the output are 0 or tiny',
